@@ -33,7 +33,7 @@ RULE = ('images generated per format from trait vectors (each of the 64 qcow2 in
         'LUKS versions, truncation at every structure boundary) x 2-3 chunk schedules, fed directly, through '
         'InspectWrapper and through cli.main (in-process + real subprocess sample); injected exceptions in every '
         'registered check. non-trivial = MUST-REJECT or MUST-ACCEPT case; distinct by (spec, path, schedule)')
-REQUIRED_CLAUSES = ['carrier-independent', 'interleaved-instances', 'must-reject', 'must-accept', 'responsible-check-named', 'fault-in-check-is-failure',
+REQUIRED_CLAUSES = ['carrier-independent', 'still-rejected-after-a-caught-eat_chunk-error', 'interleaved-instances', 'must-reject', 'must-accept', 'responsible-check-named', 'fault-in-check-is-failure',
                     'fault-inside-check-code-is-failure',
                     'cli-exit-status', 'cli-subprocess', 'mbr-family', 'only-documented-exceptions',
                     'no-safety-check-declared']
@@ -149,6 +149,14 @@ def eval_image(ctx, case):
         outcome, insp = observe_direct(cls, data, cuts)
         kn = 'F1' if (text_f1 and cuts and cuts[0] < len(data)) else None
         judge(ctx, dict(case, failing=[klass, cuts]), 'direct', verdict, resp, outcome, kn)
+        if outcome.startswith('raised:') and verdict == 'reject':
+            # a caller that catches the error from eat_chunk and keeps feeding (the harness does exactly that) and then
+            # asks anyway: an unsafe image is not accepted on that path either
+            ctx.clause('still-rejected-after-a-caught-eat_chunk-error')
+            later = sl.safety_outcome(insp)
+            if classify(later) == 'accepted':
+                ctx.fail('still-rejected-after-a-caught-eat_chunk-error', dict(case, failing=[klass, cuts]),
+                         {'eat_chunk': outcome, 'safety_check_afterwards': later}, known=kn)
         if len(cuts) <= 2000 and (len(data) + len(cuts)) % 3 == 0:
             # the same stream handed over in ONE reused bytearray / as memoryview slices of one buffer (the readinto()
             # idiom); the buffer is overwritten after every eat_chunk, so the decision must rest on what was copied
